@@ -25,7 +25,7 @@ RULE = ('one evaluation = one seeded simulated run: either 2-3 clients adding dy
         '(Averager) / at least one call was delayed (throttle); distinct = SHA-256 of the seam event log')
 ASSUMPTIONS = ['throttle is given time_func/sleep_func bound to the virtual clock (the seam the recipe offers); a virtual sleep lasts at least the requested time plus >= 1 microsecond',
                'Averager values are dyadic rationals so sums are exact in any order']
-PROBES = ('throttle_delayed', 'throttle_calls', 'throttle_raising_calls', 'throttle_across_processes', 'avg_pops', 'lock_wait')
+PROBES = ('throttle_delayed', 'throttle_calls', 'throttle_raising_calls', 'throttle_across_processes', 'throttle_after_restart', 'avg_pops', 'lock_wait')
 TECHNIQUE = 'deterministic simulation: seeded schedules + linearizability against (total,count); virtual-clock arrival patterns with a window-bound oracle over recorded start times'
 LEVEL_TEXT = ('seeded exploration of adder/popper interleavings decided by a linearizability search, and of arrival patterns x rates on '
               'a virtual clock decided by the exact window bound over all pairs of recorded start times plus completion of every call.')
@@ -81,6 +81,9 @@ def gen_case(seed, tier):
     # callers as separate processes: each opens the directory itself and decorates its own copy of the function under the
     # same name - one bucket shared through the cache, not through Python objects
     cfg['procs'] = rng.random() < 0.4
+    # a restart: after the first callers are done, a new process on the same directory whose clock reads much LOWER (a
+    # monotonic clock after a reboot, a device without a battery-backed clock) decorates the function again and calls it
+    cfg['reboot'] = rng.random() < 0.15
     return {'seed': seed, 'cfg': cfg}
 
 
@@ -221,16 +224,50 @@ def run_throttle(case):
                                                'detail': 'throttled call returned %r (raising call: %s)' % (got, boom)})
                     except WorkError:
                         probes['throttle_raising_calls'] = probes.get('throttle_raising_calls', 0) + 1
+                done1.append(i)
                 return True
             return fn
 
         globals_work = [work]
+        wave2 = []
+        done1 = []
+
+        def rebooted():
+            while len(done1) < len(cfg['arrivals']):
+                sim.sleep(0.5)
+            own = dc.FanoutCache(world.path('c'), shards=cfg['shards']) if cfg['target'] == 'fanout' else dc.Cache(world.path('c'))
+            opened.append(own)
+
+            def again(who):
+                wave2.append(('start', seams.SIM_TIME.time()))
+                return who
+            fn2 = throttled(own)(again)
+            for _ in range(3):
+                wave2.append(('arrive', seams.SIM_TIME.time()))
+                fn2('w2')
+            return True
+
         tasks = [sim.spawn('c%d' % i, 'p%d' % i if cfg.get('procs') else 'p0', caller(i)) for i in range(len(cfg['arrivals']))]
+        if cfg.get('reboot'):
+            tasks.append(sim.spawn('w2', sim.proc('p-rebooted', -100000.0), rebooted))
+            probes['throttle_after_restart'] = 1
         incident = None
         try:
             sim.run()
         except SimIncident as inc:
             incident = inc
+        if cfg.get('reboot') and incident is None and not violations:
+            arr = [t for k, t in wave2 if k == 'arrive']
+            st = [t for k, t in wave2 if k == 'start']
+            bound = 10.0 / rate + 10.0
+            for a, b in zip(arr, st):
+                if b - a > bound:
+                    violations.append({'rule': 'C20/throttle-starved-after-restart', 'sig': 'wait',
+                                       'detail': 'after the restart (clock reading 100000 s lower) a call waited %.1f s; at %.3f calls/s a '
+                                                 'freshly decorated function lets it through within %.1f s' % (b - a, rate, bound)})
+                    break
+            if len(st) != len(arr) and not violations:
+                violations.append({'rule': 'C20/throttle-call-lost', 'sig': 'restart', 'detail': '%d of %d calls started after the restart' % (len(st), len(arr))})
         if cfg.get('procs'):
             probes['throttle_across_processes'] = 1
         total_calls = sum(len(a) for a in cfg['arrivals'])
